@@ -177,4 +177,134 @@ theorem step_table (md : Module) (orc : Oracle) (vm vm' : Vm) (ins : Instr) (p q
       rcases f4 with f4 | f4 | f4 <;> omega
     · right; right; exact hk
 
+theorem modify_run (f : Vm → Vm) (vm : Vm) (a : PUnit) (vm' : Vm) (h : (modify f : M PUnit).run vm = .ok (a, vm')) : vm' = f vm := by
+  simp [modify, modifyGet, MonadStateOf.modifyGet, StateT.modifyGet, StateT.run, pure, Except.pure] at h
+  exact h.symm
+
+/-- a computation that reads the machine and changes nothing -/
+def ReadOnly {α} (f : M α) : Prop := ∀ vm a vm', f.run vm = .ok (a, vm') → vm' = vm
+
+theorem ReadOnly.bind {α β} {f : M α} {g : α → M β} (hf : ReadOnly f) (hg : ∀ a, ReadOnly (g a)) : ReadOnly (f >>= g) := by
+  intro vm b vm'' h
+  obtain ⟨a, vm', h1, h2⟩ := (run_bind_ok f g vm vm'' b).mp h
+  rw [hg a vm' b vm'' h2, hf vm a vm' h1]
+
+theorem ReadOnly.pure {α} (a : α) : ReadOnly (Pure.pure a : M α) := by
+  intro vm b vm' h; exact ((run_pure_ok a vm vm' b).mp h).2
+
+theorem ReadOnly.crash {α} (w : String) : ReadOnly (Vm.crash w : M α) := by
+  intro vm a vm' h; exact absurd h (by simp [Vm.crash, throw, throwThe, MonadExceptOf.throw, StateT.run, StateT.lift, liftM, monadLift, MonadLift.monadLift, Except.bind, Bind.bind])
+
+theorem ReadOnly.get : ReadOnly (get : M Vm) := by
+  intro vm a vm' h; exact (get_run _ _ _ h).2
+
+theorem readOnly_rdSlot (i : Int) : ReadOnly (rdSlot i) := by
+  unfold rdSlot
+  refine ReadOnly.bind ReadOnly.get (fun vm => ?_)
+  split
+  · exact ReadOnly.crash _
+  · exact ReadOnly.pure _
+
+theorem readOnly_rdAddr (i : Int) : ReadOnly (rdAddr i) := by
+  unfold rdAddr; exact ReadOnly.bind (readOnly_rdSlot i) (fun _ => ReadOnly.pure _)
+
+theorem readOnly_objOf (a : Nat) : ReadOnly (objOf a) := by
+  unfold objOf
+  refine ReadOnly.bind ReadOnly.get (fun vm => ?_)
+  split
+  · exact ReadOnly.crash _
+  · split
+    · exact ReadOnly.pure _
+    · exact ReadOnly.crash _
+
+theorem readOnly_getInt (a : Nat) : ReadOnly (getInt a) := by
+  unfold getInt
+  refine ReadOnly.bind (readOnly_objOf a) (fun o => ?_)
+  split
+  · exact ReadOnly.pure _
+  · exact ReadOnly.crash _
+
+/-- the handler of `JUMPZ`: pops the condition; `ip` stays or moves by the operand; nothing else moves -/
+theorem exec_jumpz (md : Module) (ins : Instr) (orc : Oracle) (hop : ins.op = .JUMPZ) (vm vm' : Vm)
+    (h : (exec md ins orc).run vm = .ok ((), vm')) :
+    vm'.fp = vm.fp ∧ vm'.pp = vm.pp ∧ vm'.stackSize = vm.stackSize ∧ vm'.running = vm.running ∧ vm'.sp = vm.sp - 1 ∧
+    (vm'.ip = vm.ip ∨ vm'.ip = ((vm.ip : Int) + i32 ins.w0).toNat) := by
+  unfold exec at h
+  simp only [hop, binOpOf, unOpOf, convOf, nilCmpOf, strAddOf, arrOpOf, mkArrayElem] at h
+  obtain ⟨sp, s0, h0, hA⟩ := (run_bind_ok _ _ _ _ _).mp h
+  obtain ⟨e0, e0'⟩ := getSp_run _ _ _ h0
+  rw [e0, e0'] at hA
+  obtain ⟨a1, s1, h1, hB⟩ := (run_bind_ok _ _ _ _ _).mp hA
+  have e1 := readOnly_rdAddr _ _ _ _ h1
+  rw [e1] at hB
+  obtain ⟨c, s2, h2, hC⟩ := (run_bind_ok _ _ _ _ _).mp hB
+  have e2 := readOnly_getInt _ _ _ _ h2
+  rw [e2] at hC
+  by_cases hc : c = 0
+  · simp only [hc, beq_self_eq_true, if_true] at hC
+    obtain ⟨u, s3, h3, hD⟩ := (run_bind_ok _ _ _ _ _).mp hC
+    have e3 := modify_run _ _ _ _ h3
+    have e4 := modify_run _ _ _ _ hD
+    subst e4 e3
+    exact ⟨rfl, rfl, rfl, rfl, rfl, Or.inr rfl⟩
+  · have hcf : (c == 0) = false := by simpa using hc
+    simp only [hcf] at hC
+    have e4 := modify_run _ _ _ _ hC
+    subst e4
+    exact ⟨rfl, rfl, rfl, rfl, rfl, Or.inl rfl⟩
+
+/-- the handler of `JUMP`: only `ip` moves -/
+theorem exec_jump (md : Module) (ins : Instr) (orc : Oracle) (hop : ins.op = .JUMP) (vm vm' : Vm)
+    (h : (exec md ins orc).run vm = .ok ((), vm')) :
+    vm'.fp = vm.fp ∧ vm'.pp = vm.pp ∧ vm'.stackSize = vm.stackSize ∧ vm'.running = vm.running ∧ vm'.sp = vm.sp ∧
+    vm'.ip = ((vm.ip : Int) + i32 ins.w0).toNat := by
+  unfold exec at h
+  simp only [hop, binOpOf, unOpOf, convOf, nilCmpOf, strAddOf, arrOpOf, mkArrayElem] at h
+  obtain ⟨sp, s0, h0, hA⟩ := (run_bind_ok _ _ _ _ _).mp h
+  obtain ⟨e0, e0'⟩ := getSp_run _ _ _ h0
+  rw [e0'] at hA
+  have e4 := modify_run _ _ _ _ hA
+  subst e4
+  exact ⟨rfl, rfl, rfl, rfl, rfl, rfl⟩
+
+/-- one `step` on a `JUMPZ` / `JUMP`: running on, `sp` popped by one / unchanged, control at `a + 1` or at the target -/
+theorem step_branch (md : Module) (orc : Oracle) (vm vm' : Vm) (ins : Instr)
+    (hf : md.code[vm.ip]? = some ins) (hrun : vm.running = 1) (hop : ins.op = .JUMPZ ∨ ins.op = .JUMP)
+    (h : (step md orc).run vm = .ok ((), vm')) :
+    vm'.fp = vm.fp ∧ vm'.pp = vm.pp ∧ vm'.stackSize = vm.stackSize ∧ vm'.running = 1 ∧
+    ((ins.op = .JUMPZ ∧ vm'.sp = vm.sp - 1 ∧ (vm'.ip = vm.ip + 1 ∨ vm'.ip = ((vm.ip : Int) + 1 + i32 ins.w0).toNat)) ∨
+     (ins.op = .JUMP ∧ vm'.sp = vm.sp ∧ vm'.ip = ((vm.ip : Int) + 1 + i32 ins.w0).toNat)) := by
+  unfold step at h
+  obtain ⟨v0, s0, h0, hA⟩ := (run_bind_ok _ _ _ _ _).mp h
+  obtain ⟨e0, e0'⟩ := get_run _ _ _ h0
+  rw [e0, e0'] at hA
+  rw [hf] at hA
+  dsimp only at hA
+  obtain ⟨u1, s1, h1, hB⟩ := (run_bind_ok _ _ _ _ _).mp hA
+  have e1 := set_run _ _ _ _ h1
+  obtain ⟨u2, s2, h2, hC⟩ := (run_bind_ok _ _ _ _ _).mp hB
+  obtain ⟨v3, s3, h3, hD⟩ := (run_bind_ok _ _ _ _ _).mp hC
+  obtain ⟨e3, e3'⟩ := get_run _ _ _ h3
+  rw [e3, e3'] at hD
+  have hs1 : s1.sp = vm.sp ∧ s1.fp = vm.fp ∧ s1.pp = vm.pp ∧ s1.stackSize = vm.stackSize ∧ s1.ip = vm.ip + 1 ∧ s1.running = vm.running := by
+    subst e1; exact ⟨rfl, rfl, rfl, rfl, rfl, rfl⟩
+  obtain ⟨g1, g2, g3, g4, g5, g6⟩ := hs1
+  rcases hop with hop | hop
+  · obtain ⟨a1, a2, a3, a4, a5, a6⟩ := exec_jumpz md ins orc hop s1 s2 (by cases u2; exact h2)
+    have hb : (s2.running == 2) = false := by simp; omega
+    simp only [hb] at hD
+    obtain ⟨_, e5⟩ := (run_pure_ok _ _ _ _).mp hD
+    subst e5
+    refine ⟨by omega, by omega, by omega, by omega, Or.inl ⟨hop, by omega, ?_⟩⟩
+    rcases a6 with a6 | a6
+    · left; omega
+    · right; rw [a6, g5]; simp only [Int.natCast_add, Int.cast_ofNat_Int]
+  · obtain ⟨a1, a2, a3, a4, a5, a6⟩ := exec_jump md ins orc hop s1 s2 (by cases u2; exact h2)
+    have hb : (s2.running == 2) = false := by simp; omega
+    simp only [hb] at hD
+    obtain ⟨_, e5⟩ := (run_pure_ok _ _ _ _).mp hD
+    subst e5
+    refine ⟨by omega, by omega, by omega, by omega, Or.inr ⟨hop, by omega, ?_⟩⟩
+    rw [a6, g5]; simp only [Int.natCast_add, Int.cast_ofNat_Int]
+
 end Never.Vm
